@@ -27,6 +27,7 @@ def _own_nodes(fn: ast.AST):
 class Values:
     def __init__(self, an):
         self.an = an
+        self.keep_fresh = False  # trace(): stop at the variable holding a freshly created value instead of at the display
         self._aug: Dict[str, set] = {}
 
     def _augmented(self, f: FuncInfo) -> set:
@@ -125,7 +126,16 @@ class Values:
                 # `x = None` placeholders before the real binding do not count
                 real = [b for b in bs if not (isinstance(b, ast.Constant) and b.value is None)]
                 if len(real) == 1:
+                    if self.keep_fresh and isinstance(strip_cast(real[0]), (ast.List, ast.Dict, ast.Set, ast.Tuple, ast.Constant, ast.ListComp, ast.DictComp, ast.SetComp)):
+                        return f, env, e  # the variable that holds a value created here
                     return self.trace(f, env, real[0], _depth + 1)
+            if len(hows) == 1 and hows[0][0] == "elt" and hows[0][1][0] == "assign" and isinstance(hows[0][2], int) and e.id not in self._augmented(f) \
+                    and isinstance(strip_cast(hows[0][1][1]), (ast.Call, ast.Await, ast.Name, ast.Attribute)):
+                # `a, b = <tuple / record built elsewhere>`
+                fr2, env2, rec = self.trace(f, env, hows[0][1][1], _depth + 1)
+                comp = self._component(fr2, rec, hows[0][2])
+                if comp is not None:
+                    return self.trace(fr2, env2, comp, _depth + 1)
             return f, env, e
         if isinstance(e, ast.Await) and isinstance(strip_cast(e.value), ast.Call) and id(strip_cast(e.value)) in self.an.spliced_at:
             # awaiting a coroutine helper that is spliced in: what it returns
@@ -139,7 +149,55 @@ class Values:
                 if leaves and all(x[2] is leaves[0][2] for x in leaves):
                     return leaves[0]
             return f, env, e
+        if isinstance(e, ast.Attribute) or (isinstance(e, ast.Subscript) and isinstance(e.slice, ast.Constant) and isinstance(e.slice.value, int)):
+            # a component of a record / tuple built elsewhere: `positional.normal`, `pair[0]`
+            fr2, env2, rec = self.trace(f, env, e.value, _depth + 1)
+            comp = self._component(fr2, rec, e.attr if isinstance(e, ast.Attribute) else e.slice.value)
+            if comp is not None:
+                return self.trace(fr2, env2, comp, _depth + 1)
+            return f, env, e
         return f, env, e
+
+    def record_fields(self, f: FuncInfo, call: ast.AST) -> Optional[List[str]]:
+        """field names, in order, when `call` constructs a NamedTuple / dataclass of the package"""
+        if not isinstance(call, ast.Call):
+            return None
+        try:
+            cal = self.an.scope(f).callee(call)
+        except Exception:
+            return None
+        cls = getattr(cal, "cls", None)
+        if cls is None:
+            return None
+        is_rec = any(ast.unparse(b).rpartition(".")[2] == "NamedTuple" for b in cls.base_exprs) or \
+            any(ast.unparse(d.func if isinstance(d, ast.Call) else d).rpartition(".")[2] == "dataclass" for d in cls.node.decorator_list)
+        if not is_rec:
+            return None
+        return [st.target.id for st in cls.node.body if isinstance(st, ast.AnnAssign) and isinstance(st.target, ast.Name)]
+
+    def _component(self, f: FuncInfo, rec: ast.AST, which) -> Optional[ast.AST]:
+        """the expression filed as component `which` (field name or position) of the tuple display / record construction rec"""
+        rec = strip_cast(rec)
+        if isinstance(rec, (ast.Tuple, ast.List)) and isinstance(which, int):
+            if any(isinstance(x, ast.Starred) for x in rec.elts) or not -len(rec.elts) <= which < len(rec.elts):
+                return None
+            return rec.elts[which]
+        fields = self.record_fields(f, rec)
+        if fields is None:
+            return None
+        if isinstance(which, int):
+            if not 0 <= which < len(fields):
+                return None
+            which = fields[which]
+        if which not in fields or any(isinstance(a, ast.Starred) for a in rec.args) or any(k.arg is None for k in rec.keywords):
+            return None
+        i = fields.index(which)
+        if i < len(rec.args):
+            return rec.args[i]
+        for k in rec.keywords:
+            if k.arg == which:
+                return k.value
+        return None
 
     def leaves(self, f: FuncInfo, env, e: ast.AST, _depth: int = 0, _busy: Optional[frozenset] = None):
         """Every leaf expression `e` may evaluate to, across frames: all plain bindings of a local, both arms of a conditional
@@ -167,14 +225,36 @@ class Values:
                     out.append((f, env, e))
                 if not sc.defs.get(e.id):
                     return out
-            bs = self.bindings(f, e.id)
-            if bs is None:
+            if e.id in self._augmented(f):
                 return out or [(f, env, e)]
-            for b in bs:
-                out += self.leaves(f, env, b, _depth + 1, _busy | {key})
+            for h in sc.defs.get(e.id, []):
+                if h[0] == "assign":
+                    out += self.leaves(f, env, h[1], _depth + 1, _busy | {key})
+                elif h[0] == "ann":
+                    out += self.leaves(f, env, h[2], _depth + 1, _busy | {key})
+                elif h[0] == "elt" and h[1][0] == "assign" and isinstance(h[2], int):
+                    # `a, b = <tuple / record built elsewhere>`: the component, for every alternative of the right-hand side
+                    got = False
+                    for fr2, env2, rec in self.leaves(f, env, h[1][1], _depth + 1, _busy | {key}):
+                        comp = self._component(fr2, rec, h[2])
+                        if comp is not None:
+                            out += self.leaves(fr2, env2, comp, _depth + 1, _busy | {key})
+                            got = True
+                    if not got:
+                        out.append((f, env, e))
+                else:
+                    out.append((f, env, e))
             return out or [(f, env, e)]
         if isinstance(e, ast.Await) and isinstance(strip_cast(e.value), ast.Call) and id(strip_cast(e.value)) in self.an.spliced_at:
             return self.leaves(f, env, strip_cast(e.value), _depth + 1, _busy)
+        if isinstance(e, ast.Attribute) or (isinstance(e, ast.Subscript) and isinstance(e.slice, ast.Constant) and isinstance(e.slice.value, int)):
+            out = []
+            for fr2, env2, rec in self.leaves(f, env, e.value, _depth + 1, _busy):
+                comp = self._component(fr2, rec, e.attr if isinstance(e, ast.Attribute) else e.slice.value)
+                if comp is None:
+                    return [(f, env, e)]
+                out += self.leaves(fr2, env2, comp, _depth + 1, _busy)
+            return out or [(f, env, e)]
         if isinstance(e, ast.Call):
             t = self.an.spliced_at.get(id(e))
             if t is not None:
@@ -186,6 +266,14 @@ class Values:
                 if out:
                     return out
         return [(f, env, e)]
+
+    def trace_var(self, f: FuncInfo, env, e: ast.AST):
+        """trace(), but a value created on the spot (a display, a constant) is represented by the variable that holds it"""
+        saved, self.keep_fresh = self.keep_fresh, True
+        try:
+            return self.trace(f, env, e)
+        finally:
+            self.keep_fresh = saved
 
     def canon_at(self, f: FuncInfo, env, e: ast.AST, _depth: int = 0) -> str:
         """canon() seen from the root function: parameters of a spliced helper are replaced by what the caller passed."""
